@@ -49,7 +49,7 @@ pub fn run(cx: &Ctx) {
     cx.set_rule("cases = data sets with n >= 2 and non-zero spread, shapes weighted towards skewed (exponential, log-normal, negative heavy tail), two-point, bimodal, single-outlier and arithmetic progressions, offsets up to 1e9 spreads, fed one observation at a time to Skewness and Kurtosis; skewness(), kurtosis() and the re-exported mean/variance accessors judged against exact m3/m2^1.5, m4/m2^2-3 with the DESIGN.md 4.1 envelopes. Non-trivial = |exact skewness| > 0.1 (Kurtosis: or |excess kurtosis| > 0.1); distinct = hash of the sequence bits");
     cx.assume("exact oracle and envelopes as in C01");
     let w = cx.workers;
-    let cases = cx.by(500, 8000);
+    let cases = cx.by(3000, 40000);
     let big = cx.by(6000, 30000);
     let strat = move || gen::dataset_shapes(&SHAPES, 2, 3000, big, 9.0).prop_map(|xs| Xs { xs });
     cx.label("generated");
@@ -60,8 +60,8 @@ pub fn run(cx: &Ctx) {
     cx.run_list(&kurt_check(), fixed_cases(), "fixed two-point/outlier/progression family");
     if cx.thorough() {
         cx.label("search");
-        cx.run_climb(&skew_check(), climb_starts(cx, 96, 0xC03), 4000, mutate_xs, "hill-climb 96 x 4000");
-        cx.run_climb(&kurt_check(), climb_starts(cx, 96, 0xC03B), 4000, mutate_xs, "hill-climb 96 x 4000");
+        cx.run_climb(&skew_check(), climb_starts(cx, 256, 0xC03), 6000, mutate_xs, "hill-climb 256 x 6000");
+        cx.run_climb(&kurt_check(), climb_starts(cx, 256, 0xC03B), 6000, mutate_xs, "hill-climb 256 x 6000");
     }
     // sign classes (measured on the generated data)
 }
